@@ -186,6 +186,13 @@ fn fixed_forms() -> BoxedStrategy<String> {
     .boxed()
 }
 
+impl C06 {
+    /// literal generator without the arbitrary-bytes classes (used by the oracle self-test)
+    pub fn strategy_for_selftest(&self) -> BoxedStrategy<String> {
+        prop_oneof![4 => grammar_lit(), 3 => boundary_lit(), 2 => scaled_edge_lit(), 3 => near_miss(), 1 => fixed_forms(), 1 => "[0-9+\\-.eE]{0,24}"].boxed()
+    }
+}
+
 impl Prop for C06 {
     type Case = Case;
     fn id(&self) -> &'static str {
